@@ -50,6 +50,8 @@ def gen_case(pyrng, present, nmax=12, force=None):
             X = rnd(g, (n, n), cplx); M = (X - X.conj().T) / 2
         c["parts"] = [enc(M)]
         c["kind"] = "dense"; c["normal"] = sub
+        if sub == "symmetric" and g.random() < 0.6:
+            c["annot"] = "SelfAdjoint"        # declared annotation: the factorisation must not depend on it
     elif kind == "blocktri":
         # U [[B, X], [0, D]] U^H : the first r columns of U span an invariant subspace (non-normal in general)
         r = int(g.integers(1, max(2, n)))
@@ -434,6 +436,28 @@ def gen_illcond(pyrng):
                 max_iters=m, tol=float(g.choice([1e-12, 1e-14])), entry="arnoldi", family="illcond")
 
 
+def gen_annotated(pyrng):
+    """ANNOTATED Hermitian operators (declared SelfAdjoint / PSD, inferred SelfAdjoint of a Sum of two declared ones; real and complex;
+    plain Dense as control) of size 40..64 with spectrum k^2 and n (or 40) steps: enough for Ritz values to converge, the regime in
+    which a recurrence that skips the full orthogonalisation loses orthogonality completely.  Oracle only: orthonormality against what
+    an independent MGS loses on the same input, relation, and for arnoldi_eigs the spectrum."""
+    g = np.random.default_rng(pyrng.getrandbits(64))
+    n = int(g.choice([40, 48, 64])); cplx = bool(g.random() < 0.35)
+    U = rand_unitary(g, n, cplx)
+    lam = np.arange(1, n + 1, dtype=float) ** 2
+    S = herm((U * lam) @ U.conj().T)
+    how = str(g.choice(["SelfAdjoint", "SelfAdjoint", "PSD", "sum_inferred", "none"]))
+    c = dict(cplx=cplx, n=n, start="random", batch=0, grades=[n], family="annotated", annotation=how)
+    if how == "sum_inferred":
+        S1 = herm(rnd(g, (n, n), cplx)); c.update(kind="sumsym", parts=[enc(S1), enc(S - S1)])
+    else:
+        c.update(kind="dense", parts=[enc(S)], annot=(None if how == "none" else how))
+    v = rnd(g, (n,), cplx)
+    c.update(v=enc((v + 0j)[None, :]), max_iters=int(g.choice([n, n, 40, n + 5])), tol=float(g.choice([1e-7, 1e-10])),
+             entry=str(g.choice(["arnoldi", "arnoldi_eigs", "Arnoldi()"])))
+    return c
+
+
 def gen_constant_recurrence(pyrng, n=None):
     """exact inputs whose Arnoldi recurrence has a CONSTANT sub-diagonal: cyclic shifts, companion matrices and non-symmetric
     tridiagonal Toeplitz matrices started from e_1: the remainder norm (the quantity the loop tracks) is the same number bit for
@@ -509,6 +533,8 @@ def dense_of(c):
         S = p[1] * dec(p[0])
     elif k == "identity":
         S = np.eye(c["n"], dtype=complex)
+    elif k == "sumsym":
+        S = dec(p[0]) + dec(p[1])
     elif k == "scalarmul":
         S = complex(*p[0]) * np.eye(c["n"], dtype=complex)
     elif k == "perm":
@@ -519,6 +545,17 @@ def dense_of(c):
 
 
 def build_op(c):
+    """c["annot"] in {None, "SelfAdjoint", "PSD"} declares the annotation on the operator (annotations are an input dimension:
+    routines may take shortcuts on them); kind "sumsym" is a Sum of two declared-SelfAdjoint operators (inferred annotation)"""
+    A = _build_op(c)
+    if c.get("annot") == "SelfAdjoint":
+        A = cola.SelfAdjoint(A)
+    elif c.get("annot") == "PSD":
+        A = cola.PSD(A)
+    return A
+
+
+def _build_op(c):
     k, p = c["kind"], c["parts"]
     opc = c.get("op_cplx", c["cplx"])          # the operator's dtype may differ from the start vector's (c["cplx"])
     dt = np.complex128 if opc else (np.float32 if c.get("op_f32") else np.float64)
@@ -535,6 +572,8 @@ def build_op(c):
         return p[1] * ops.Dense(cast(p[0]))
     if k == "identity":
         return ops.Identity((c["n"], c["n"]), dt)
+    if k == "sumsym":
+        return cola.SelfAdjoint(ops.Dense(cast(p[0]))) + cola.SelfAdjoint(ops.Dense(cast(p[1])))
     if k == "scalarmul":
         z = complex(*p[0])
         return ops.ScalarMul(z if c["cplx"] else z.real, (c["n"], c["n"]), dt)
@@ -713,9 +752,10 @@ def oracle(c, obs, present=frozenset()):
             bad.append(tag + f"only {done} of min(max_iters,n)={cap} Arnoldi steps although the last remainder is {sd[done - 1]:.3g} "
                              f"(H[1,0]={sd[0]:.3g}, tol={c['tol']}): truncated factorisation, A Q[:, :m] = Q H fails")
         # orthonormality of the columns whose sub-diagonal entry exceeds the tolerance
-        Qa = Q[:, :a + 1]
-        loss = np.abs(Qa.conj().T @ Qa - np.eye(a + 1)).max()
-        if loss > 1e-8 and loss > 100 * mgs_loss_ref(S, v.astype(complex), a):
+        ao = min(a, n - 1)                      # at most n orthonormal vectors; the reference is run for the same number of steps
+        Qa = Q[:, :ao + 1]
+        loss = np.abs(Qa.conj().T @ Qa - np.eye(ao + 1)).max()
+        if loss > 1e-8 and loss > 100 * mgs_loss_ref(S, v.astype(complex), ao):
             bad.append(tag + f"columns 0..{a} not orthonormal (loss {loss:.3g}, beyond what single-pass modified Gram-Schmidt loses on this input)")
         executed = int(np.sum(np.abs(H).max(axis=0) > 0))
         alive_steps = min(a, executed - 1) if b == 0 else min(alive_steps, a, executed - 1)
